@@ -33,7 +33,7 @@ pub fn st_fmt(c: &MoveChain) -> String {
 fn mutating(kind: &str) -> bool {
     matches!(
         kind,
-        "pm" | "pU" | "pu" | "pS" | "ps" | "pl" | "pop" | "so" | "co" | "ro" | "auto" | "clone" | "swap" | "alt"
+        "pm" | "pn" | "pU" | "pu" | "pS" | "ps" | "pl" | "pop" | "so" | "co" | "ro" | "auto" | "clone" | "swap" | "alt"
     )
 }
 
@@ -87,6 +87,14 @@ impl ChainSim {
                     Ok(()) => "ok".to_string(),
                     Err(e) => format!("err:{}", e_mv_validate(&e)),
                 }
+            }
+            ("pn", 1) => {
+                // the null move, recorded with `push_unchecked` within its contract (game not finished, not in check)
+                if self.cur.is_finished() || self.cur.last().is_check() {
+                    return "skip".to_string();
+                }
+                unsafe { self.cur.push_unchecked(owlchess::moves::Move::NULL) };
+                "ok".to_string()
             }
             ("pU", 2) | ("pu", 2) | ("pS", 2) | ("ps", 2) | ("pl", 2) => {
                 if self.cur.is_finished() {
